@@ -360,6 +360,7 @@ pub fn worker<P: Property>(tier: Tier, seed: u64, shard: u32, of: u32, out_path:
         }
     }
     let _ = std::fs::remove_dir_all(std::env::temp_dir().join(format!("a10verif-inotify-{}", std::process::id())));
+    let _ = std::fs::remove_dir_all(std::env::temp_dir().join(format!("a10verif-c13-{}", std::process::id())));
     let out = stats.into_inner().finish();
     let text = serde_json::to_string(&out).unwrap();
     if std::fs::write(out_path, text).is_err() {
